@@ -9,6 +9,7 @@ from ..expressions import (
     MathExpression,
     MultiplyExpression,
     NegateExpression,
+    PowerExpression,
     VariableExpression,
 )
 from ..rule import BaseRule, ExpressionChangeRule
@@ -59,14 +60,20 @@ class ConstantsSimplifyRule(BaseRule):
         if isinstance(node, EqualExpression):
             return None
 
-        # A division by zero has no value to fold to
+        # A division by zero (4 / 0, 0^-1) has no value to fold to
         folded = node.get_child() if isinstance(node, NegateExpression) else node
         if (
-            isinstance(folded, DivideExpression)
+            isinstance(folded, (DivideExpression, PowerExpression))
+            and isinstance(folded.left, ConstantExpression)
             and isinstance(folded.right, ConstantExpression)
-            and folded.right.value == 0
+            and folded.left.value is not None
+            and folded.right.value is not None
         ):
-            return None
+            if isinstance(folded, DivideExpression) and folded.right.value == 0:
+                return None
+            if isinstance(folded, PowerExpression):
+                if folded.left.value == 0 and folded.right.value < 0:
+                    return None
 
         # Check for a negation wrapping a simple binary op with constants
         # -(3 + 2)
